@@ -402,12 +402,22 @@ func c12Gen(t *rapid.T) c12Case {
 	// table mode: deliberately shared classes (nested, overlapping, abutting, far apart), every location kind
 	cfg := locCfg{L: L, Hot: []int{0, L / 2, L/2 + 1, L}, MaxDepth: 2, MaxParts: 3, Sites: true, MaxSpan: 6}
 	n := rapid.IntRange(1, 6).Draw(t, "nfeat")
+	crowd := genLarge && rapid.Bool().Draw(t, "crowd")
+	if crowd {
+		// one crowded class: 13..28 ranges of one key and qualifier over a few shared coordinates (equal spans that differ
+		// only in their partial ends, abutting fragments, repeats)
+		n = rapid.IntRange(13, 28).Draw(t, "ncrowd")
+		cfg.Hot = []int{0, L / 4, L / 2, L/2 + 1, 3 * L / 4, L}
+	}
 	c := c12Case{Mode: "table", L: L}
 	for i := 0; i < n; i++ {
 		key := rapid.SampledFrom([]string{"gene", "gene", "CDS", "source"}).Draw(t, "key")
 		q := rapid.SampledFrom([][]string{{"gene", "a"}, {"gene", "a"}, {"gene", "b"}, {"gene", "a", "x"}, {"gene", "a", "y"}, {"gene", "a x"}, {"gene", "a", "x", "y"}}).Draw(t, "q")
+		if crowd && rapid.IntRange(0, 9).Draw(t, "incrowd") > 0 {
+			key, q = "repeat_region", []string{"note", "r"}
+		}
 		var l Loc
-		if rapid.Bool().Draw(t, "simple") {
+		if crowd || rapid.Bool().Draw(t, "simple") {
 			s := cfg.coord(t, 0, L-1, "s")
 			e := cfg.coord(t, s+1, L, "e")
 			l = lprg(s, e, rapid.Bool().Draw(t, "p5"), rapid.Bool().Draw(t, "p3"))
